@@ -363,6 +363,41 @@ def degenerate_values(rec):
                      'n_cov in {1, 2} x covariate effects {all zero, one non-zero, all non-zero} x covariates {all zero, one non-zero row, all non-zero}; 3 individuals; distinct by pattern', exhaustive=True)
 
 
+def selection_sequences(rec):
+    """bounded: a second (third) selection of covariate-dependent parameters on the same model replaces the first one completely -- names,
+    likelihood, individual parameters and sensitivities equal those of a fresh model with only the last selection"""
+    import chi as real
+    sels = [[[0, 0], [1, 1]], [[1, 0], [0, 1]], [[0, 0], [1, 0]], [[0, 1], [1, 1]], [[0, 0]], [[0, 0], [0, 1], [1, 0], [1, 1]], [[1, 1], [0, 0]]]
+    cases = [(a_, b_) for a_ in range(len(sels)) for b_ in range(len(sels)) if a_ != b_] + [(0, 1, 2), (5, 0, 1), (2, 4, 3)]
+
+    def one(case):
+        def mk():
+            return real.CovariatePopulationModel(real.GaussianModel(n_dim=2, centered=False), real.LinearCovariateModel(n_cov=2))
+        m, f = mk(), mk()
+        for k_ in case:
+            m.set_population_parameters(sels[k_])
+        f.set_population_parameters(sels[case[-1]])
+        m.set_n_ids(3)
+        f.set_n_ids(3)
+        hist = [sels[k_] for k_ in case]
+        if list(m.get_parameter_names()) != list(f.get_parameter_names()) or m.n_parameters() != f.n_parameters():
+            return 'selections %s in turn: names %s; a fresh model with the last selection has %s' % (hist, list(m.get_parameter_names()), list(f.get_parameter_names()))
+        n = f.n_parameters()
+        th = 0.5 + 0.07 * np.arange(n)
+        eta = 0.3 * np.arange(6).reshape(3, 2) - 0.4
+        cov = 0.2 + 0.15 * np.arange(6).reshape(3, 2)
+        ra = [m.compute_log_likelihood(th, eta, covariates=cov), m.compute_individual_parameters(th, eta, covariates=cov)] + list(m.compute_sensitivities(th, eta, covariates=cov, dlogp_dpsi=np.ones((3, 2))))
+        rb = [f.compute_log_likelihood(th, eta, covariates=cov), f.compute_individual_parameters(th, eta, covariates=cov)] + list(f.compute_sensitivities(th, eta, covariates=cov, dlogp_dpsi=np.ones((3, 2))))
+        sa, sb = m.sample(th, n_samples=3, seed=4, covariates=cov), f.sample(th, n_samples=3, seed=4, covariates=cov)
+        if not all(np.shape(u_) == np.shape(v_) and np.allclose(u_, v_) for u_, v_ in zip(ra + [sa], rb + [sb])):
+            return 'selections %s in turn on one model: likelihood / individual parameters / sensitivities / samples differ from a fresh model with the selection %s (e.g. individual parameters %s vs %s)' % (
+                hist, hist[-1], np.round(np.asarray(ra[1]), 4).tolist(), np.round(np.asarray(rb[1]), 4).tolist())
+        return None
+    q = 'chi._population_models.CovariatePopulationModel.'
+    rec.native_check('select.sequence', [q + 'set_population_parameters', q + 'compute_individual_parameters', q + 'compute_log_likelihood', q + 'compute_sensitivities', q + 'sample'], cases, one,
+                     'ordered pairs (and three triples) of 7 selections on a 2-dimensional non-centred Gaussian model with 2 covariates; the model after the sequence against a fresh model with the last selection', exhaustive=True)
+
+
 def delegation(rec):
     """CovariatePopulationModel.{compute_log_likelihood, compute_sensitivities, compute_individual_parameters} hand the wrapped model the
     per-individual parameters vartheta_i[a, b] = theta[a * n_dim + b] + (covariate effect)  (flat vector parameter-major, as the names are
@@ -529,4 +564,4 @@ def native_delegation_witness(seed):
     return None
 
 
-TASKS = [('delegation', delegation), ('degenerate', degenerate_values)] + [('selections%02d' % c, (lambda rec, c=c: selections_task(rec, c, N_CHUNKS))) for c in range(N_CHUNKS)] + [('sampler', sampler)]
+TASKS = [('delegation', delegation), ('degenerate', degenerate_values), ('selection-sequences', selection_sequences)] + [('selections%02d' % c, (lambda rec, c=c: selections_task(rec, c, N_CHUNKS))) for c in range(N_CHUNKS)] + [('sampler', sampler)]
